@@ -64,9 +64,11 @@ class C12(Check):
               "come from the same mapping and the values are numeric (dict[str, float])",
         "Y6": "a failed conversion in the simulator reaches a warning and leaves the Jacobian unset",
         "Y7": "every function of the shipped rate-law library uses only constructs the translator handles",
+        "Y9": "equation assembly: eqs[variable] accumulates + Float(coefficient) * rate over the static table and + translated-coefficient * rate "
+              "over the dynamic table (sibling of the numeric assemblers of C01)",
         "Y8": "an untranslatable derived quantity, reaction or coefficient raises",
     }
-    floors = {"Y1": 2, "Y2": 15, "Y3": 1, "Y4": 2, "Y5": 3, "Y6": 1, "Y7": 15, "Y8": 3}
+    floors = {"Y1": 2, "Y2": 15, "Y3": 1, "Y4": 2, "Y5": 3, "Y6": 1, "Y7": 15, "Y8": 3, "Y9": 2}
     decided = [
         "conversion does not depend on the declaration order of derived quantities and reactions",
         "equations are aligned with the variables; untouched variables get a zero equation",
@@ -159,6 +161,25 @@ class C12(Check):
             self.holds("Y4", SYM, q, "variable-symbols-in-declaration-order", vs[0], "variable symbols keyed like get_initial_conditions() (declaration order)")
         else:
             self.violated("Y4", SYM, q, "variable-symbols-in-declaration-order", vs[0] if vs else fn, "variable symbols are not created in declaration order")
+        acc = [a for a in walk_no_nested(fn) if isinstance(a, ast.Assign) and norm(a.targets[0]) == "eqs[cpd]"]
+        sc9 = Scope(fn)
+        for a in acc:
+            loops = sc9.enclosing(a, ast.For)
+            table = norm(loops[1].iter) if len(loops) > 1 else "?"
+            t = norm(a.value)
+            if table == "cache.stoich_by_cpds.items()":
+                ok, cons = t == "eqs.get(cpd, sympy.Float(0.0)) + sympy.Float(stoich_value) * rxns[rxn]", "static-terms"
+            elif table == "cache.dyn_stoich_by_cpds.items()":
+                ok, cons = t == "eqs.get(cpd, sympy.Float(0.0)) + factor * rxns[rxn]", "dynamic-terms"
+            else:
+                continue
+            if ok:
+                self.holds("Y9", SYM, q, cons, a, f"eqs[cpd] += coefficient * rate over {table}")
+            else:
+                self.violated("Y9", SYM, q, cons, a, f"`{t[:90]}` is not `previous + coefficient * rate` over {table}",
+                              witness="the symbolic equation of a variable lacks a coefficient or has the wrong sign")
+        if not {o.construct for o in self.obs if o.rule == "Y9"} >= {"static-terms", "dynamic-terms"}:
+            self.violated("Y9", SYM, q, "both-tables", fn, "the symbolic equations are not assembled from both the static and the dynamic coefficient table")
         self.y2()
         self.y5()
         self.y7()
@@ -317,6 +338,7 @@ class C12(Check):
             Variant("jacobian-by-parameters", SYM, "SymbolicModel.jacobian", "list(self.variables.values())", "list(self.parameters.values())", expect="Y4|", quick=True),
             Variant("reaction-none-unchecked", SYM, T, "            if (expr := fn_to_sympy(rxn.fn, origin=k, model_args=[symbols[i] for i in rxn.args])) is None:\n                msg = f\"Unable to parse reaction '{k}'\"\n                raise ValueError(msg)\n",
                     "            expr = fn_to_sympy(rxn.fn, origin=k, model_args=[symbols[i] for i in rxn.args])\n", expect="Y8|"),
+            Variant("dynamic-coefficient-dropped", SYM, T, "eqs[cpd] = eqs.get(cpd, sympy.Float(0.0)) + factor * rxns[rxn]", "eqs[cpd] = eqs.get(cpd, sympy.Float(0.0)) + rxns[rxn]", expect="Y9|"),
             Variant("jacobian-failure-silent", SIM, "Simulator._initialise_integrator", "            _LOGGER.warning(str(e), stacklevel=2)", "            pass", expect="Y6|"),
             Variant("library-uses-augassign", "fns.py", "mass_action_1s", "    return k * s1", "    v = k\n    v *= s1\n    return v", expect="Y7|", quick=True),
             Variant("reactions-not-in-symbols", SYM, T, "            symbols[k] = expr\n            rxns[k] = expr", "            rxns[k] = expr", expect="Y1|"),
